@@ -68,8 +68,8 @@ func enumPaths(n int, names []string) []lib.Path {
 	return out
 }
 
-// the last five characters are Unicode white space that is NOT white space of the grammar ([ \\n\\t\\r] only)
-const c16Alphabet = "abcxe019./|^() \n@\u00a0\v\f\u2028\u3000"
+// U+FFFD and U+FEFF: characters scanners use as markers; the five before them are Unicode white space that is NOT white space of the grammar ([ \\n\\t\\r] only)
+const c16Alphabet = "abcxe019./|^() \n@\u00a0\v\f\u2028\u3000\ufffd\ufeff"
 
 // singleEdits returns every string at edit distance one (delete / insert / replace one character of the alphabet).
 func singleEdits(s string) []string {
@@ -163,7 +163,7 @@ type c16Item struct {
 func c16(tier string) {
 	ctx := lib.NewCtx("C16", tier)
 	maxLeaves := ctx.N(3, 4)
-	ctx.Rule = fmt.Sprintf("EXHAUSTIVE enumeration of all path ASTs with <=%d IRIs/@type over sequence, alternative, inverse and grouping, each printed in several whitespace / redundant-parenthesis variants, plus single-character edits (delete/insert/replace over the alphabet %q) of the canonical print of every sentence with <=%d IRIs (%s), every single blank and every run of blanks of every canonical print deleted, and runs of 33-72 blanks inside / around the sentence and between it and stray text; each string is classified by an independent recogniser of the documented grammar; "+
+	ctx.Rule = fmt.Sprintf("EXHAUSTIVE enumeration of all path ASTs with <=%d IRIs/@type over sequence, alternative, inverse and grouping, each printed in several whitespace / redundant-parenthesis variants, plus single-character edits (delete/insert/replace over the alphabet %q) of the canonical print of every sentence with <=%d IRIs (%s), every single blank and every run of blanks of every canonical print deleted, runs of 33-72 blanks inside / around the sentence and between it and stray text, and paths with 64-65 (quick) / 31-130 (thorough) groups / nesting levels / steps (whole, and with a parenthesis or an operand missing); each string is classified by an independent recogniser of the documented grammar; "+
 		"sentences must compile and denote what the grammar's structure denotes on discriminating graphs, non-sentences must be rejected; non-trivial & distinct = distinct judged string", maxLeaves, c16Alphabet, ctx.N(2, 3), map[bool]string{true: "seeded 12% sample", false: "all of them"}[ctx.Quick()])
 	ctx.Assumptions = []string{
 		"strings with leading/trailing whitespace and the empty string are not judged",
@@ -266,6 +266,33 @@ func c16(tier string) {
 					}
 				}
 			}
+		}
+	}
+	// scale: many groups, deep redundant nesting, long sequences and alternatives (sentences), and the same with one
+	// parenthesis missing or one operand empty (not sentences)
+	scaleKs := []int{64, 65}
+	if !ctx.Quick() {
+		scaleKs = []int{31, 32, 33, 63, 64, 65, 66, 85, 100, 130}
+	}
+	for _, k := range scaleKs {
+		var groups, plain []string
+		for j := 0; j < k; j++ {
+			groups = append(groups, fmt.Sprintf("(ex.n%d)", j%7))
+			plain = append(plain, fmt.Sprintf("ex.n%d", j%7))
+		}
+		deep := strings.Repeat("(", k) + "ex.a" + strings.Repeat(")", k)
+		forms := []string{strings.Join(groups, " | "), strings.Join(groups, " / "), strings.Join(plain, " | "), strings.Join(plain, " / "), deep, deep + " / " + deep}
+		if ctx.Quick() {
+			forms = []string{strings.Join(groups, " | "), deep}
+		}
+		for _, t := range forms {
+			if len(t) > 900 {
+				continue // an implicit YAML key is limited to 1024 characters
+			}
+			add(t, "edit", nil, "")
+			add(t[1:], "edit", nil, "")
+			add(t+")", "edit", nil, "")
+			add(strings.Replace(t, "ex.n3", "", 1), "edit", nil, "")
 		}
 	}
 	// deterministic order, then shard
